@@ -1073,3 +1073,24 @@ Proof.
   - rewrite (getsec_is_navigation_ok w c _ Hc). unfold navigate_sec.
     rewrite (split_path_trailing_bar b p H). reflexivity.
 Qed.
+
+(* ------------------------------------------------------------------ *)
+(* what a step selects                                                 *)
+(* ------------------------------------------------------------------ *)
+Lemma select_first o v vs : o_vals o = v :: vs -> select o None = Some 0.
+Proof. intros H. unfold select. rewrite H. reflexivity. Qed.
+
+Lemma select_single_qualified o t : oflag o CFGF_MULTI = false -> select o (Some t) = None.
+Proof. intros H. unfold select. rewrite H. reflexivity. Qed.
+
+Lemma select_in_range o q v : select o q = Some v -> v < length (o_vals o).
+Proof.
+  unfold select. destruct q as [t|].
+  - destruct (negb (oflag o CFGF_MULTI)); [discriminate|].
+    destruct (oflag o CFGF_TITLE); [apply gettsecidx_bound|].
+    destruct (sl_rest (strtol t 0)); [|discriminate].
+    destruct ((0 <=? sl_val (strtol t 0))%Z && (Z.to_N (sl_val (strtol t 0)) <? N.of_nat (length (o_vals o)))%N) eqn:E; [|discriminate].
+    intros H. inversion H; subst. apply andb_true_iff in E as [E1 E2].
+    apply Z.leb_le in E1. apply N.ltb_lt in E2. lia.
+  - destruct (o_vals o); [discriminate|]. intros H. inversion H; subst. cbn. lia.
+Qed.
